@@ -17,14 +17,42 @@ RULE = ('(a) static: hand = Hypothesis set of 1-13 of the 52 cards (biased to on
         'integer, 3 draws per state for own hand and for dummy. Oracle: result == whole hand when leading or void in '
         'the led suit, else exactly the hand\'s cards of the led suit (independent set comprehension); non-empty; subset '
         'of the hand; RandomPlay\'s card is in that set. Non-trivial = non-leading case where the hand holds the led '
-        'suit AND another suit (the filter matters) or is void in it; distinct by (hand, led card).')
+        'suit AND another suit (the filter matters) or is void in it; distinct by (hand, led card). (c) one RandomPlay object serving three decisions of two seats concurrently, every line-level schedule with <= 1 (thorough 2) deviations: each choice must lie in its caller\'s playable set.')
 ASSUMPTIONS = ['RandomPlay uses the global random module; it is seeded from a Hypothesis-drawn integer before each call']
 
 
 def plan(tier):
     a, pa = (6, 10000) if tier == 'quick' else (8, 150000)
     b, pb = (10, 500) if tier == 'quick' else (16, 3000)
-    return [{'kind': 'static', 'n': pa} for _ in range(a)] + [{'kind': 'boards', 'n': pb} for _ in range(b)]
+    return [{'kind': 'static', 'n': pa} for _ in range(a)] + [{'kind': 'boards', 'n': pb} for _ in range(b)] + [{'kind': 'concurrent'}]
+
+
+# ---------------------------------------------------------------------------------------
+# concurrent use: ONE RandomPlay object serving two seats at once (line-level schedules, vf/props/_concurrent.py)
+
+def _p_shared_random_play(B):
+    from bridge_env.network_bridge.playing_system import RandomPlay
+    from bridge_env.playing_phase import PlayingPhase
+    C = lambda t: B.Card.str_to_card(t)                                                             # noqa
+    rp = RandomPlay()
+    e1 = PlayingPhase(B.Contract(final_bid=B.Bid.NT1, declarer=B.Player.N)); e1.play_card(C('S2'))   # spade led
+    e2 = PlayingPhase(B.Contract(final_bid=B.Bid.H2, declarer=B.Player.E)); e2.play_card(C('D9'))    # diamond led
+    h1 = {C(t) for t in ('SA', 'S5', 'HK', 'D3', 'C2')}
+    h2 = {C(t) for t in ('DK', 'D4', 'SQ', 'H7', 'CA')}
+    return [lambda: str(rp.play(set(h1), e1)), lambda: str(rp.play(set(h2), e2)), lambda: str(rp.play(set(h1), e1))]
+
+
+def _in_follow_sets(res, expected):
+    allowed = [{'SA', 'S5'}, {'DK', 'D4'}, {'SA', 'S5'}]
+    for i, r in enumerate(res):
+        if r not in allowed[i]:
+            return ('a RandomPlay object used by two seats at once chose a card outside the caller\'s playable set', {'call': i, 'chose': repr(r)[:100], 'playable': sorted(allowed[i])})
+    return None
+
+
+def concurrent_programs():
+    return {'one RandomPlay object, three concurrent decisions': (_p_shared_random_play, _in_follow_sets,
+                                                                 ('/bridge_env/network_bridge/playing_system.py', '/bridge_env/playing_phase.py'))}
 
 
 def _classify(stats, hand, led, tag):
@@ -140,6 +168,14 @@ def _hand_strategy():
 
 def run_shard(spec, seed, tier, stats):
     shrink = tier == 'thorough'
+    if spec['kind'] == 'concurrent':
+        from vf.props import _concurrent as CC
+        try:
+            for name, (prog, oracle, tr) in concurrent_programs().items():
+                CC.explore(name, prog, oracle, stats, bound=1 if tier == 'quick' else 2, orders=(0, 1), trace=tr)
+        except Violation as v:
+            return [v]
+        return []
     if spec['kind'] == 'static':
         v = run_hypothesis(lambda hand, led: _static(hand, led, stats),
                            {'hand': _hand_strategy(), 'led': st.one_of(st.none(), st.integers(0, 51), st.integers(0, 51), st.integers(0, 51))}, seed, spec['n'], shrink)
@@ -152,6 +188,9 @@ def run_shard(spec, seed, tier, stats):
 
 def replay(rec):
     c = rec['case']
+    if 'concurrent_program' in c:
+        from vf.props import _concurrent as CC
+        return CC.replay(rec, concurrent_programs())
     try:
         if 'deal' not in c:
             _static(set(_parse_cards(c['hand'])), None if c['led'] is None else _parse_cards([c['led']])[0])
